@@ -15,6 +15,10 @@ pub trait KKTSolver<T: FloatT>: HasLinearSolverInfo {
     ) -> bool;
     fn update_P(&mut self, P: &CscMatrix<T>);
     fn update_A(&mut self, A: &CscMatrix<T>);
+    #[cfg(clarabel_verif)]
+    fn verif_direct(&self) -> Option<&direct::DirectLDLKKTSolver<T>> {
+        None
+    }
 }
 
 pub trait HasLinearSolverInfo {
